@@ -470,6 +470,20 @@ def run(F, run, tier):
     check_romberg(F, run, tier)
     check_stop_rule(F, run)
     check_de_stop(F, run, tier)
+    # "integrands the rule sequence can integrate exactly return Ok within tolerance" presupposes that every rule of the sequence *is* its Gauss rule as the driver
+    # consumes it: the table obligations of C10 (count, distinct in-domain nodes, positive weights, exact moments, reference rule; tanh-sinh pairs) run here too —
+    # a wrong digit in the last rule of a table makes the two-consecutive-agreement test fail for polynomials it should integrate exactly
+    from rules import c10 as _c10
+    _c10.mp.dps = 60 if tier == "thorough" else 40
+    for table_path in _c10.TABLES:
+        try:
+            _c10.check_gauss_table(F, run, tier, table_path)
+        except Missing as m:
+            run.broken("R10.1", table_path, "table", "-", str(m))
+    try:
+        _c10.check_de(F, run, tier)
+    except Missing as m:
+        run.broken("R10.1", _c10.DE_TABLE[0], "table", "-", str(m))
     run.assumptions += ["the integrand is uninterpreted; exact arithmetic", "error <= C·tol and evaluation counts are numerical: not decided",
                         "adaptive Simpson is explored over all accept/subdivide patterns of bounded depth"]
     expl = ("Guards are established path-sensitively for all eight routines; the affine map and result scaling are extracted from the wrapper closures; adaptive Simpson is "
